@@ -440,6 +440,11 @@ def call(ex, node, name, st):
     if name == "dict.fromkeys":
         keys = A(0)
         v = A(1)
+        if isinstance(keys, TupV) and isinstance(v, (Opt, BoolV)):
+            m = MapV.empty("int")
+            for k_ in keys.items:
+                m = m.set(S.as_int(ex.need_int(k_, st, node)), ex.need_int(v, st, node))
+            return m
         if isinstance(keys, tuple) and keys[0] == "range" and isinstance(v, SliceV):
             lo, hi, stp = keys[1:]
             if not z3.is_int_value(z3.simplify(stp)) or z3.simplify(stp).as_long() != 1:
